@@ -267,6 +267,22 @@ def hfinal (u : Bool) : HState → List HOp → HState
 
 def init : HState := ⟨[], [], 0, false⟩
 
+/-- THE PROPERTY AS STATED, with no sequentiality proviso ("executed stays executed through ANY later sequence"): the
+    same machine, except that recording an outcome leaves an `executed` record alone. The code does not do this (see
+    `overlap_hazard` and the known finding C17-overlap-late-failure); op `histstrict` judges the code against it. -/
+def hstepStrict (st : HState) : HOp → HRes × HState
+  | .outcome id grp ok f =>
+    if st.held then (.hang, st) else
+    (.done, { st with
+      m := (storeStatus ⟨st.m, f⟩ ((keysOf st id grp).filter fun k => lookup st.m k != .executed)
+              (if ok then .executed else .failed)).m,
+      inflight := st.inflight.filter (fun p => !inGroup id grp p) })
+  | op => hstep true st op
+
+def hrunStrict : HState → List HOp → List (HRes × HState)
+  | _, [] => []
+  | st, op :: r => let x := hstepStrict st op; x :: hrunStrict x.2 r
+
 /-- sequential histories: a retry does not touch a deposit whose execution is still in flight (its outcome is
     recorded, or the execution is lost, before the deposit is released again) -/
 def seqOk (st : HState) : HOp → Bool
